@@ -125,13 +125,16 @@ def generate(rng, seed, run, tier, xmode=False):
             objs = common + [n for n in rng.sample(onames, min(2, len(onames))) if n not in common]
             props = common[::-1] + [n for n in rng.sample(pnames, min(2, len(pnames))) if n not in common]
             r = rng.random()
-            if r < 0.35:      # several distinct repeated names
+            if rng.random() < 0.45:      # several distinct repeated names
                 k = rng.randint(1, min(3, len(objs)))
                 objs = objs + rng.sample(objs, k)
                 if rng.random() < 0.5:
                     props = props + rng.sample(props, min(len(props), rng.randint(1, 3)))
             rng.shuffle(objs)
-            if r > 0.95:
+            if r < 0.08:
+                # a big table: reprs, checksums and text dumps of objects beyond any size threshold
+                events.append(['x_big', rng.choice([70, 130, 260, 300]), rng.choice([70, 260, 300, 520]), rng.randrange(1000)])
+            elif r > 0.95:
                 events.append(['x_format', rng.choice(['nope', 'CSV2', 'tablex', ''])])
             elif r > 0.8:
                 # serialized form with several required keys missing / wrong
@@ -279,7 +282,7 @@ def simplify(plan):
 def _model_apply(models, ev):
     """Apply ``ev`` to the list of slot models; returns (ret, dst) or raises Rejected."""
     kind = ev[0]
-    if kind in ('set_order', 'x_ctx', 'x_def', 'x_fromdict', 'x_format'):
+    if kind in ('set_order', 'x_ctx', 'x_def', 'x_fromdict', 'x_format', 'x_big'):
         return None
     if kind == 'c_definition':
         return None   # handled by the executor (needs the live contexts)
@@ -468,7 +471,7 @@ def execute(plan, rec):
                 rec.check('C13.eq_fresh_from_triple',
                           eq1.ok and eq2.ok and ne.ok and eq1.value is True and eq2.value is True
                           and ne.value is False,
-                          lambda i=i, got=got, d=d: f'slot {i}: residue: {got!r} pairs={sorted(d._pairs)!r}')
+                          lambda i=i, got=got, d=d: f'slot {i}: residue: {got!r} pairs={sorted(d._pairs, key=repr)!r}')
             else:
                 rec.check('C13.eq_fresh_from_triple', False,
                           lambda i=i, fresh=fresh: f'slot {i}: Definition(*d) raised {fresh.text()}')
@@ -504,6 +507,21 @@ def execute(plan, rec):
             out = call(Context.fromstring, 'x', ev[1])
             out2 = call(lambda: Context(['o'], ['p'], [(True,)]).tostring(ev[1]))
             rec.log(out.text() + ' / ' + out2.text())
+            continue
+        if kind == 'x_big':
+            _, n, m, k = ev
+            objs = [f'o{i}' for i in range(n)]
+            props = [f'p{j}' for j in range(m)]
+            bools = [tuple((i * 7 + j * 13 + k) % 11 < 2 or i == j for j in range(m)) for i in range(n)]
+            c = call(Context, objs, props, bools)
+            dd = call(Definition, objs, props, bools)
+            import hashlib
+            for name, fn in (('repr', lambda x: core.mask(repr(x))), ('crc32', lambda x: x.crc32()),
+                             ('str', lambda x: hashlib.sha256(core.mask(str(x)).encode()).hexdigest()[:16]),
+                             ('csv', lambda x: hashlib.sha256(x.tostring('csv').encode()).hexdigest()[:16]),
+                             ('shape', lambda x: (tuple(x.shape), str(x.fill_ratio)))):
+                for what, o in (('context', c), ('definition', dd)):
+                    rec.log(f'{what}.{name} ' + (call(fn, o.value).text() if o.ok else o.text()))
             continue
         if kind == 'x_ctx':
             out = call(Context, ev[1], ev[2], [tuple(False for _ in ev[2]) for _ in ev[1]])
